@@ -17,7 +17,8 @@ RULE = ("outcome scripts over {ok, fail(no response), fail(status), none, raise}
         "4^1+..+4^8 = 87 380 scripts over {ok, fail, none, raise} in thorough, in quick all up to length 7 and those of "
         "length 8 whose unconsumed tail is at most two outcomes (the two kinds of fail alternate by position) "
         "+ random scripts up to length 12 with all duration modes and owner-callback variants (stop from inside, slow, "
-        "restart); the same heartbeat inside a real UDPTunnel and UDPDeviceManagementConnection (real ConnectionState "
+        "restart, raises CommunicationError / a subclass / RuntimeError at once, after 1 s, after stopping the heartbeat - "
+        "crossed with every script up to length 6 (7 thorough) that gives up); the same heartbeat inside a real UDPTunnel and UDPDeviceManagementConnection (real ConnectionState "
         "exchange over the stub socket, gateway scripted ok / silent / error status / channel gone) for all live scripts "
         "up to length 4 (5 thorough); thorough adds scripts of length 9..12 stratified by the lengths of the failure "
         "runs; non-trivial = "
@@ -37,6 +38,14 @@ DURS = {"zero": lambda o: 0.0,
 
 class _Sub(RequestResponseError):
     pass
+
+
+# what `on_failure` may do besides returning (round 3): raise - at once, after taking time, after stopping the heartbeat
+FAIL_RAISES = {"raise-comm": lambda: CommunicationError("Transport not connected"),
+               "raise-sub": lambda: _Sub("disconnect failed"),
+               "raise-other": lambda: RuntimeError("boom"),
+               "slow-raise-comm": lambda: CommunicationError("late"),
+               "stop-raise-comm": lambda: CommunicationError("stopped, then failed")}
 
 
 async def _run(loop, script, dur, variant):
@@ -69,12 +78,21 @@ async def _run(loop, script, dur, variant):
         st = int(o[1:])
         return False, (None if st == 0 else f"E_{st}")
 
-    async def on_failure():
+    raised = []
+
+    async def on_failure():   # recorded when STARTED; what it does afterwards is the scripted axis `variant`
         tr.append(f"F{now()}")
         if variant == "stop-inside":
             hb.stop()  # the owner's callback may stop the heartbeat from within its task
         elif variant == "slow":
             await asyncio.sleep(1.0)
+        elif variant in FAIL_RAISES:
+            if variant.startswith("slow-"):
+                await asyncio.sleep(1.0)
+            if variant.startswith("stop-"):
+                hb.stop()
+            raised.append(FAIL_RAISES[variant]())
+            raise raised[-1]
 
     hb = ConnectionHeartbeat("verif", send, on_failure)
     hb.start()
@@ -88,7 +106,12 @@ async def _run(loop, script, dur, variant):
     await asyncio.wait([task, exhausted], return_when=asyncio.FIRST_COMPLETED)
     if task.done():
         exc = None if task.cancelled() else task.exception()
-        tr.append(f"E{now()}" if exc is None else f"!{type(exc).__name__}")
+        if exc is None:
+            tr.append(f"E{now()}")
+        elif raised and exc is raised[-1]:
+            tr.append(f"Z{now()}")     # the exception of on_failure ended the task (it propagates on the unchanged tree)
+        else:
+            tr.append(f"!{type(exc).__name__}")
         # nothing may happen afterwards either
         n = len(tr)
         await asyncio.sleep(3 * RATE)
@@ -153,7 +176,7 @@ def _owner_classes():
     return Tun, Dm
 
 
-async def _run_owner(loop, script, owner):
+async def _run_owner(loop, script, owner, dead=False):
     from harness.tstub import GW, Gateway
     from xknx import XKNX
     from xknx.knxip import ConnectionStateRequest, ConnectionStateResponse, ErrorCode
@@ -216,6 +239,8 @@ async def _run_owner(loop, script, owner):
         base(fr, addr)
     o.transport.gateway = handle
     await o.connect()
+    if dead:   # the socket dies before the first heartbeat: requests fail at once, on_failure runs over a dead transport
+        loop.call_later(RATE - 1, o.transport.stop)
     if owner != "tunnel":
         tr.append(f"S{now()}")
     task = o._heartbeat._task
@@ -244,7 +269,7 @@ async def _run_owner(loop, script, owner):
 def run_impl(case):
     script = case["script"].split(",")
     if case.get("owner"):
-        tr = vloop.run(_run_owner, script, case["owner"])
+        tr = vloop.run(_run_owner, script, case["owner"], bool(case.get("dead")))
         s = ",".join(tr)
         return {"out": s, "line": f"hb monitor {s}", "expect": "accept"}
     tr = vloop.run(_run, script, case.get("dur", "zero"), case.get("variant", "plain"))
@@ -308,16 +333,20 @@ def oracle(case, out):
                 return (f"obs {i}: on_failure awaited although the outcomes so far ({','.join(script[:consumed])}) "
                         f"contain neither a raise nor four consecutive failures" + (" (connection was gone: must stop quietly)" if over == "gone" else ""))
             if n_fail_cb > 1:
-                return f"obs {i}: on_failure awaited {n_fail_cb} times"
+                return (f"obs {i}: on_failure started {n_fail_cb} times - the connection is declared lost once, whatever "
+                        f"on_failure does (variant {case.get('variant', 'plain')})")
         elif k == "E":
             if over is None:
                 return f"obs {i}: heartbeat task ended although it should still be running (after {','.join(script[:consumed])})"
             if over == "lost" and n_fail_cb != 1:
                 return f"obs {i}: heartbeat ended after {','.join(script[:consumed])} without awaiting on_failure"
+        elif k == "Z":   # the task ended with the exception its on_failure raised
+            if over != "lost" or n_fail_cb != 1:
+                return f"obs {i}: heartbeat task ended with on_failure's exception, but on_failure was started {n_fail_cb} times (phase {over})"
         elif k == "X":
             if over is not None:
                 return f"obs {i}: heartbeat still alive after it should have been {over}"
-    if obs[-1][0] not in "EX":
+    if obs[-1][0] not in "EXZ":
         return "trace does not end with the task ending or being cut"
     return None
 
@@ -327,7 +356,7 @@ def nontrivial(case, out):
 
 
 def finding_key(case, msg):
-    return f"{case['script']}|{case.get('dur', 'zero')}|{case.get('variant', 'plain')}|{case.get('owner', '')}"
+    return f"{case['script']}|{case.get('dur', 'zero')}|{case.get('variant', 'plain')}|{case.get('owner', '')}|{case.get('dead', '')}"
 
 
 def outcome_class(out):
@@ -378,7 +407,7 @@ def _status_variant(seq, salt):
 
 def generate(rng, tier):
     thorough = tier == "thorough"
-    variants = ["plain", "stop-inside", "slow", "restart"]
+    variants = ["plain", "stop-inside", "slow", "restart"] + list(FAIL_RAISES)
     n = 0
     for length in range(1, 9):
         for seq in itertools.product(SYMS, repeat=length):
@@ -390,6 +419,10 @@ def generate(rng, tier):
             yield {"script": ",".join(_status_variant(seq, n)),
                    "dur": "zero" if pruned else ("zero", "fast", "real")[n % 3],
                    "variant": "plain" if pruned else variants[(n // 3) % 4 if n % 5 == 0 else 0]}
+            # on_failure behaviour x every script that gives up (t is the index of the raise / 4th failure), length <= 6
+            if t is not None and t >= length - 2 and seq[t] != "none" and length <= (7 if thorough else 6):
+                for v in FAIL_RAISES:
+                    yield {"script": ",".join(_status_variant(seq, n)), "dur": ("zero", "real")[n % 2], "variant": v}
     # the heartbeat inside its owners (real ConnectionState exchange; `raise` cannot be produced there)
     osyms = ["ok", "f0", "f33", "none"]
     for length in range(1, 6 if thorough else 5):
@@ -399,6 +432,8 @@ def generate(rng, tier):
                 continue
             for owner in ("tunnel", "dmconn"):
                 yield {"script": ",".join(seq), "owner": owner}
+    for owner in ("tunnel", "dmconn"):   # dead socket: four immediate failures, then on_failure over a dead transport
+        yield {"script": "f0,f0,f0,f0,ok", "owner": owner, "dead": 1}
     # random full-length scripts (unpruned), all durations and variants
     for j in range(4000 if thorough else 400):
         length = rng.choice([3, 5, 8, 9, 10, 11, 12]) if thorough else rng.choice([2, 4, 6, 8, 12])
